@@ -396,7 +396,104 @@ pub fn run(key: &str, a: &[String], out: &mut Out) {
             let first = inproc.first().cloned().unwrap_or_default();
             out.case(key, a, &[if first.is_empty() { s("~") } else { first.join(";") }, hashes(&inproc), hashes(&threads), child]);
         }
+        "C19.names" => {
+            // k namesA namesB queries => per query the DISTINCT results over all fresh builds, number of builds
+            let k: usize = a[0].parse().unwrap();
+            let names_a: Vec<String> = esc_list(&a[1]);
+            let names_b: Vec<String> = esc_list(&a[2]);
+            let queries: Vec<String> = if a[3] == "~" { vec![] } else { a[3].split(';').map(unesc).collect() };
+            let eval_all = |sa: &BddVariableSet, sb: &BddVariableSet| -> Vec<String> {
+                queries.iter().map(|q| catch(|| name_query(sa, sb, q)).unwrap_or_else(|| s("panic"))).collect()
+            };
+            let mut seen: Vec<std::collections::BTreeSet<String>> = vec![Default::default(); queries.len()];
+            let mut builds = 0usize;
+            let mut record = |r: Vec<String>, builds: &mut usize| { *builds += 1; for (i, x) in r.into_iter().enumerate() { seen[i].insert(x); } };
+            // fresh sets in this thread: `new`, the builder, a clone of a fresh set, `From<Vec<String>>`
+            for rep in 0..k {
+                match catch(|| (build_set(&names_a, rep % 4), build_set(&names_b, (rep / 4) % 4))) {
+                    Some((sa, sb)) => record(eval_all(&sa, &sb), &mut builds),
+                    None => record(vec![s("build-panic"); queries.len()], &mut builds),
+                }
+            }
+            // fresh sets built inside k threads, and one shared pair queried by all of them
+            if let Some(shared) = catch(|| Arc::new((build_set(&names_a, 0), build_set(&names_b, 0)))) {
+                let results: Vec<(Vec<String>, Vec<String>)> = std::thread::scope(|sc| {
+                    let handles: Vec<_> = (0..k).map(|rep| {
+                        let (shared, names_a, names_b, eval_all) = (shared.clone(), &names_a, &names_b, &eval_all);
+                        sc.spawn(move || {
+                            let own = match catch(|| (build_set(names_a, rep % 4), build_set(names_b, (rep / 4) % 4))) {
+                                Some((sa, sb)) => eval_all(&sa, &sb),
+                                None => vec![],
+                            };
+                            (own, eval_all(&shared.0, &shared.1))
+                        })
+                    }).collect();
+                    handles.into_iter().map(|h| h.join().unwrap_or_default()).collect()
+                });
+                for (own, sh) in results {
+                    record(if own.len() == queries.len() { own } else { vec![s("thread-died"); queries.len()] }, &mut builds);
+                    record(if sh.len() == queries.len() { sh } else { vec![s("thread-died"); queries.len()] }, &mut builds);
+                }
+            }
+            let obs = if seen.is_empty() { s("~") } else { seen.iter().map(|x| x.iter().cloned().collect::<Vec<_>>().join("#")).collect::<Vec<_>>().join(";") };
+            out.case(key, a, &[obs, builds.to_string()]);
+        }
         _ => panic!("unknown key {}", key),
+    }
+}
+
+// ---- name resolution (C19.names)
+
+/// `%<hex code point>.` for white space, control characters and the separators of the case line
+fn esc(x: &str) -> String {
+    let mut out = String::new();
+    for c in x.chars() {
+        if c.is_whitespace() || c.is_control() || ",;%#/~".contains(c) { out.push_str(&format!("%{:x}.", c as u32)); } else { out.push(c); }
+    }
+    out
+}
+fn unesc(x: &str) -> String {
+    let mut out = String::new();
+    let mut it = x.chars();
+    while let Some(c) = it.next() {
+        if c == '%' {
+            let hex: String = it.by_ref().take_while(|d| *d != '.').collect();
+            out.push(char::from_u32(u32::from_str_radix(&hex, 16).unwrap()).unwrap());
+        } else { out.push(c); }
+    }
+    out
+}
+fn esc_list(x: &str) -> Vec<String> { if x == "~" { vec![] } else { x.split(',').map(unesc).collect() } }
+
+fn build_set(names: &[String], method: usize) -> BddVariableSet {
+    let refs: Vec<&str> = names.iter().map(|x| x.as_str()).collect();
+    match method {
+        0 => BddVariableSet::new(&refs),
+        1 => { let mut b = BddVariableSetBuilder::new(); b.make_variables(&refs); b.build() }
+        2 => { let fresh = BddVariableSet::new(&refs); let copy = fresh.clone(); drop(fresh); copy }
+        _ => BddVariableSet::from(names.to_vec()),
+    }
+}
+
+/// one query `kind:argument` against set A (and set B for transfers)
+fn name_query(sa: &BddVariableSet, sb: &BddVariableSet, q: &str) -> String {
+    let (kind, arg) = q.split_once(':').unwrap_or((q, ""));
+    let parse = |x: &str| BooleanExpression::try_from(x).ok();
+    match kind {
+        "v" => fmt_optvar(sa.var_by_name(arg).map(|v| v.to_index())),
+        "mk" => fmt_bdd(&sa.mk_var_by_name(arg)),
+        "nmk" => fmt_bdd(&sa.mk_not_var_by_name(arg)),
+        "safe" => match parse(arg) { None => s("parse-err"), Some(e) => fmt_opt_bdd(&sa.safe_eval_expression(&e)) },
+        "evs" => fmt_bdd(&sa.eval_expression_string(arg)),
+        // the expression is evaluated in B, the result is transferred into A (`tr`) — or the other way round (`trb`)
+        "tr" | "trb" => {
+            let (from, to) = if kind == "tr" { (sb, sa) } else { (sa, sb) };
+            match parse(arg) {
+                None => s("parse-err"),
+                Some(e) => match from.safe_eval_expression(&e) { None => s("src-none"), Some(b) => fmt_opt_bdd(&to.transfer_from(&b, from)) },
+            }
+        }
+        _ => panic!("unknown query {}", q),
     }
 }
 
@@ -552,8 +649,151 @@ fn core_tt(rng: &mut Rng64, n: usize) -> TT {
     }
 }
 
+const BASE_NAMES: [&str; 24] = ["Erk", "Mek", "p53", "x", "a", "var", "gene_1", "Raf", "AKT", "mTOR", "tgfb", "Ras", "k", "Kinase", "fi", "strasse",
+    "cafe", "v10", "node", "I", "ab", "xy", "Cdc25", "e"];
+
+/// names "similar" to `base`: case variants, prefix/suffix/underscore/digit, white space around, Unicode look-alikes
+/// and normalisation variants, one character changed / dropped / doubled / transposed
+fn similar(rng: &mut Rng64, base: &str) -> String {
+    let chars: Vec<char> = base.chars().collect();
+    let pos = rng.below(chars.len().max(1) as u64) as usize;
+    let with = |i: usize, f: &dyn Fn(char) -> String| -> String {
+        chars.iter().enumerate().map(|(j, c)| if i == j { f(*c) } else { c.to_string() }).collect()
+    };
+    let lookalike = |c: char| -> String {
+        match c {
+            'a' => "\u{430}", 'e' => "\u{435}", 'o' => "\u{43e}", 'p' => "\u{440}", 'c' => "\u{441}", 'x' => "\u{445}", 'y' => "\u{443}", 'i' => "\u{456}",
+            'A' => "\u{391}", 'E' => "\u{395}", 'K' => "\u{212a}", 'M' => "\u{39c}", 'T' => "\u{3a4}", 'R' => "\u{211d}", 'I' => "\u{406}", 'k' => "\u{138}",
+            '1' => "l", '0' => "O", 'f' => "\u{17f}", 's' => "\u{17f}", 'v' => "\u{3bd}", 'n' => "\u{578}", 'r' => "\u{433}", 'd' => "\u{501}", 'g' => "\u{261}",
+            _ => return format!("{}\u{301}", c),
+        }.to_string()
+    };
+    match rng.below(30) {
+        0 => base.to_uppercase(),
+        1 => base.to_lowercase(),
+        2 => with(0, &|c| c.to_uppercase().collect::<String>() ),
+        3 => with(0, &|c| c.to_lowercase().collect::<String>()),
+        4 => with(pos, &|c| if c.is_uppercase() { c.to_lowercase().collect::<String>() } else { c.to_uppercase().collect::<String>() }),
+        5 => format!("_{}", base),
+        6 => format!("{}_", base),
+        7 => format!("{}{}", base, rng.below(10)),
+        8 => format!("{}{}", ["x", "v", "n", "the", "NOT"][rng.below(5) as usize], base),
+        9 => format!("{}{}", base, ["'", ".", "-1", "_1", "+", "*", "[0]", "{}"][rng.below(8) as usize]),
+        10 => format!("{} ", base),
+        11 => format!(" {}", base),
+        12 => format!("{}\u{a0}", base),
+        13 => format!("\t{}", base),
+        14 => with(pos, &lookalike),
+        15 => with(0, &lookalike),
+        16 => format!("{}\u{200b}", base),                    // zero-width space (not White_Space)
+        17 => base.chars().map(|c| char::from_u32(c as u32 + 0xFEE0).filter(|_| c.is_ascii_graphic()).unwrap_or(c)).collect(), // full width
+        18 => base.replace("fi", "\u{fb01}").replace("ss", "\u{df}").replace("e", "e\u{301}"),
+        19 => base.replace("e", "\u{e9}").replace("I", "\u{130}").replace("i", "\u{131}"),
+        20 => with(pos, &|c| char::from_u32(c as u32 + 1).unwrap_or(c).to_string()),
+        21 => with(pos, &|_| String::new()),
+        22 => with(pos, &|c| format!("{}{}", c, c)),
+        23 => { let mut v = chars.clone(); if v.len() > 1 { let i = pos.min(v.len() - 2); v.swap(i, i + 1); } v.into_iter().collect() }
+        24 => base.trim().to_string(),
+        25 => base.trim_matches('_').to_string(),
+        26 => base.replace('_', ""),
+        27 => base.replace('_', "-"),
+        28 => format!("{}{}", base, base),
+        _ => with(pos, &|c| if c.is_ascii_digit() { ((c as u8 - b'0' + 1) % 10).to_string() } else { format!("{}0", c) }),
+    }
+}
+fn usable_name(x: &str) -> bool {
+    !x.is_empty() && x != "true" && x != "false" && !x.chars().any(|c| "!&|^=<>()?:".contains(c))
+}
+/// names the expression parser reads back as one identifier
+fn parser_safe(x: &str) -> bool { usable_name(x) && !x.chars().any(|c| c.is_whitespace()) }
+
+fn name_expr(rng: &mut Rng64, atoms: &[String], depth: u32) -> String {
+    if depth == 0 || rng.chance(1, 3) { return rng.pick(atoms).clone(); }
+    match rng.below(7) {
+        0 => format!("!{}", name_expr(rng, atoms, depth - 1)),
+        1 => format!("({} ? {} : {})", name_expr(rng, atoms, depth - 1), name_expr(rng, atoms, depth - 1), name_expr(rng, atoms, depth - 1)),
+        k => format!("({} {} {})", name_expr(rng, atoms, depth - 1), ["&", "|", "^", "=>", "<=>"][(k - 2) as usize], name_expr(rng, atoms, depth - 1)),
+    }
+}
+
+/// one `C19.names` case: two variable sets with groups of similar names and queries over known and similar-unknown names
+fn gen_names_case(rng: &mut Rng64, k: usize) -> Vec<String> {
+    let mut names_a: Vec<String> = vec![];
+    let push = |v: &mut Vec<String>, x: String| if usable_name(&x) && !v.contains(&x) && v.len() < 12 { v.push(x) };
+    for _ in 0..(1 + rng.below(3)) {
+        let base = rng.pick(&BASE_NAMES).to_string();
+        if rng.chance(3, 4) { push(&mut names_a, base.clone()); }
+        for _ in 0..(1 + rng.below(4)) {
+            let mut x = similar(rng, &base);
+            if rng.chance(1, 6) { x = similar(rng, &x); }
+            push(&mut names_a, x);
+        }
+    }
+    for _ in 0..rng.below(3) { push(&mut names_a, rng.pick(&BASE_NAMES).to_string()); }
+    if names_a.is_empty() { names_a.push(s("Erk")); names_a.push(s("ERK")); }
+    // shuffle
+    for i in (1..names_a.len()).rev() { let j = rng.below(i as u64 + 1) as usize; names_a.swap(i, j); }
+    // B: the same names in another order, some replaced by similar ones, some dropped, some added
+    let mut names_b: Vec<String> = vec![];
+    for x in &names_a {
+        match rng.below(6) {
+            0 => {}
+            1 | 2 => { let y = similar(rng, x); push(&mut names_b, y); if rng.bool() { push(&mut names_b, x.clone()); } }
+            _ => push(&mut names_b, x.clone()),
+        }
+    }
+    if rng.bool() { names_b.reverse(); } else if rng.bool() { names_b.sort(); }
+    // queries
+    let mut unknown: Vec<String> = vec![];
+    for x in names_a.iter().chain(names_b.iter()) {
+        for _ in 0..2 {
+            let y = similar(rng, x);
+            if !y.contains(':') && !names_a.contains(&y) && !unknown.contains(&y) && unknown.len() < 14 { unknown.push(y); }
+        }
+    }
+    for y in ["", "erk", "ERK", "true", "x_0"] { if rng.chance(1, 4) && !names_a.contains(&s(y)) && !unknown.contains(&s(y)) { unknown.push(s(y)); } }
+    let mut q: Vec<String> = vec![];
+    for x in &names_a { q.push(format!("v:{}", x)); }
+    for x in &unknown { q.push(format!("v:{}", x)); }
+    for x in names_a.iter().chain(unknown.iter()) { if rng.chance(1, 3) { q.push(format!("{}:{}", if rng.bool() { "mk" } else { "nmk" }, x)); } }
+    let known_atoms: Vec<String> = names_a.iter().filter(|x| parser_safe(x)).cloned().collect();
+    let b_atoms: Vec<String> = names_b.iter().filter(|x| parser_safe(x)).cloned().collect();
+    let mut mixed: Vec<String> = known_atoms.clone();
+    mixed.extend(unknown.iter().filter(|x| parser_safe(x)).cloned());
+    mixed.push(s("true"));
+    for atoms in [&known_atoms, &mixed, &mixed] {
+        if atoms.is_empty() { continue; }
+        for _ in 0..3 {
+            let e = name_expr(rng, atoms, 2);
+            q.push(format!("{}:{}", if rng.bool() { "safe" } else { "evs" }, e));
+        }
+        for x in atoms.iter().take(6) { if rng.chance(1, 2) { q.push(format!("safe:{}", x)); } }
+    }
+    let mut both: Vec<String> = b_atoms.clone();
+    both.extend(known_atoms.iter().cloned());
+    if !both.is_empty() {
+        for _ in 0..5 { q.push(format!("{}:{}", if rng.chance(2, 3) { "tr" } else { "trb" }, name_expr(rng, &both, 2))); }
+        for x in both.iter().take(8) { q.push(format!("{}:{}", if rng.bool() { "tr" } else { "trb" }, x)); }
+    }
+    let join = |v: &[String], sep: &str| if v.is_empty() { s("~") } else { v.iter().map(|x| esc(x)).collect::<Vec<_>>().join(sep) };
+    vec![k.to_string(), join(&names_a, ","), join(&names_b, ","), join(&q, ";")]
+}
+
+/// The runner's search for a failing input after a broken tie runs the thorough generators with VERIF_CASE_CAP set;
+/// the case count says little about the time of multi-threaded cases with child processes, so in that mode every
+/// stream is cut to a fifth and the whole generation to VERIF_C19_SEARCH_SECS seconds (default 110).
+fn search_mode() -> bool { std::env::var("VERIF_CASE_CAP").is_ok() }
+static START: std::sync::OnceLock<std::time::Instant> = std::sync::OnceLock::new();
+fn search_over() -> bool {
+    let start = *START.get_or_init(std::time::Instant::now);
+    let budget: u64 = std::env::var("VERIF_C19_SEARCH_SECS").ok().and_then(|x| x.parse().ok()).unwrap_or(110);
+    search_mode() && start.elapsed().as_secs() >= budget
+}
+
 pub fn gen(tier: Tier, rng: &mut Rng64, out: &mut Out) {
     let thorough = tier == Tier::Thorough;
+    let _ = search_over();                                  // starts the clock
+    let div: u64 = if search_mode() { 5 } else { 1 };      // thorough counts below are divided by this
     run("C19.types", &[s("Bdd,BddVariableSet,BddValuation,BddPartialValuation,BddVariable,BddPointer,BddNode,BooleanExpression,iterators")], out);
     // every operation of the menu at least once, two threads running the same program
     for n in [1usize, 3, 5] {
@@ -575,6 +815,14 @@ pub fn gen(tier: Tier, rng: &mut Rng64, out: &mut Out) {
         let prog = all.join(";");
         run("C19.run", &[n.to_string(), pool, format!("{}/{}", prog, prog)], out);
     }
+    // ---- name resolution on freshly built variable sets with groups of similar names
+    run("C19.names", &[s("16"), s("Erk,ERK"), s("ERK,Erk,erk"), ["v:Erk", "v:ERK", "v:erk", "v:Erk ", "mk:erk", "safe:(Erk & !ERK)", "safe:erk", "evs:(erk | Erk)", "tr:(Erk & erk)", "tr:ERK", "trb:ERK"].iter().map(|x| esc(x)).collect::<Vec<_>>().join(";")], out);
+    for i in 0..(if thorough { 5000 / div } else { 450 }) {
+        if search_over() { break; }
+        let k = if i % 8 == 0 { 32 } else { 16 };
+        let case = gen_names_case(rng, k);
+        run("C19.names", &case, out);
+    }
     // ---- repetition of the operations whose result is not a Bdd: clause lists (the ORDER of the list is observed),
     //      sorted support sets, expression text, dot text, witnesses, counts — each evaluated `reps` times in this thread,
     //      on `reps` fresh threads and `reps` times in a child process; functions with common cores give the DNF
@@ -583,14 +831,16 @@ pub fn gen(tier: Tier, rng: &mut Rng64, out: &mut Out) {
     let reps = s("8");
     let rep_case = |b: &Bdd, n: usize, out: &mut Out| run("C19.rep", &[n.to_string(), fmt_bdd(b), rep_prog.clone(), reps.clone()], out);
     for t in 0..256u64 {
-        if thorough || t % 2 == 0 { rep_case(&bdd_of_tt(3, &tt_from_index(3, t)), 3, out); }
+        if (thorough && div == 1) || t % 2 == 0 { rep_case(&bdd_of_tt(3, &tt_from_index(3, t)), 3, out); }
     }
-    for _ in 0..(if thorough { 6000 } else { 360 }) {
+    for _ in 0..(if thorough { 6000 / div } else { 360 }) {
+        if search_over() { break; }
         let n = 4 + (rng.below(6) as usize) / 3 + (rng.below(6) as usize) / 4;     // 4 mostly, 5, 6
         rep_case(&bdd_of_tt(n, &core_tt(rng, n)), n, out);
     }
     // ---- dry runs and size-limited operators only, several in a row on every thread
-    for _ in 0..(if thorough { 4000 } else { 300 }) {
+    for _ in 0..(if thorough { 4000 / div } else { 300 }) {
+        if search_over() { break; }
         let n = 3 + rng.below(6) as usize;
         let pool_len = 2 + rng.below(3) as usize;
         let pool: Vec<String> = (0..pool_len).map(|_| fmt_bdd(&bdd_of_tt(n, &core_tt(rng, n)))).collect();
@@ -610,9 +860,9 @@ pub fn gen(tier: Tier, rng: &mut Rng64, out: &mut Out) {
         }).collect();
         run("C19.run", &[n.to_string(), pool.join("/"), progs.join("/")], out);
     }
-    let rounds = if thorough { 24000 } else { 1000 };
+    let rounds = if thorough { 24000 / div } else { 1000 };
     for round in 0..rounds {
-        if out.full() { break; }
+        if out.full() || search_over() { break; }
         let n = 1 + rng.below(8) as usize;
         let pool_len = 1 + rng.below(6) as usize;
         let pool = gen_pool(rng, n, pool_len);
